@@ -24,6 +24,15 @@ type docArg struct {
 	form   string // the default as written in the lambda list (a literal or a form with the value *def)
 	ref    int    // -1, or the index of the required parameter the default form refers to: its value is
 	refAdd int    // that parameter's argument + refAdd, so the literal the model sees is set per call
+	traced bool   // the default form reports its own evaluation: it pushes the parameter's index on zqtrace first
+}
+
+// lispDefault is the default form as it stands in the lambda list.
+func (d docArg) lispDefault() string {
+	if d.traced {
+		return fmt.Sprintf("(progn (setq zqtrace (cons %d zqtrace)) %s)", d.id, d.form)
+	}
+	return d.form
 }
 
 // kwName is the Lisp spelling of the keyword the model calls AKw id.
@@ -38,7 +47,7 @@ func Run(ctx *common.Ctx) {
 	scope := slip.NewScope()
 	// two parameter names are also global variables: a parameter of that name must get its argument or its
 	// default, never the global value (C04-2)
-	for _, g := range []string{"(defvar zqc 777)", "(defvar zqf 778)", "(defvar zqglobal 700)"} {
+	for _, g := range []string{"(defvar zqc 777)", "(defvar zqf 778)", "(defvar zqglobal 700)", "(defvar zqtrace nil)"} {
 		if o := common.EvalIn(scope, g); o.Err != "" {
 			ctx.Violate("defvar failed", g, o.Err+": "+o.Msg, nil)
 		}
@@ -52,6 +61,74 @@ func Run(ctx *common.Ctx) {
 	var descs []any
 	distinct := map[string]bool{}
 	fn := 0
+	// emit calls the function on the arguments, reads the trace of default forms evaluated, classifies the outcome and
+	// records the case
+	emit := func(name, def string, ds []docArg, gds, args, gargs []string) (string, common.Outcome) {
+		call := fmt.Sprintf("(%s %s)", name, strings.Join(args, " "))
+		common.EvalIn(scope, "(setq zqtrace nil)")
+		out := common.EvalTimeout(scope, call, 3*time.Second)
+		var gtrace []string
+		if tl, ok := common.EvalIn(scope, "zqtrace").Value.(slip.List); ok {
+			for i := len(tl) - 1; i >= 0; i-- { // pushed: the last evaluated is first
+				if n, ok := tl[i].(slip.Fixnum); ok {
+					gtrace = append(gtrace, fmt.Sprint(int64(n)))
+				}
+			}
+		}
+		var gtraced []string
+		for _, d := range ds {
+			if d.traced {
+				gtraced = append(gtraced, fmt.Sprint(d.id))
+			}
+		}
+		var gout, shown string
+		switch {
+		case out.Err == "":
+			lst, _ := out.Value.(slip.List)
+			var bs []string
+			bi := 0
+			for _, d := range ds {
+				if d.marker != "" {
+					continue
+				}
+				var val slip.Object
+				if bi < len(lst) {
+					val = lst[bi]
+				}
+				bi++
+				bs = append(bs, fmt.Sprintf("(%d%%N, %s)", d.id, gValue(val)))
+			}
+			gout, shown = "OBound "+common.GList(bs), out.Printed
+		case strings.HasPrefix(out.Msg, "Too many arguments"):
+			gout, shown = "OErr KTooMany", "!too-many"
+		case strings.HasPrefix(out.Msg, "Too few arguments"):
+			gout, shown = "OErr KTooFew", "!too-few"
+		case out.Err == "error" && strings.HasPrefix(out.Msg, "Missing value for key"):
+			gout, shown = "OErr KBadKey", "!missing-key-value"
+		case out.Err == "program-error" && strings.Contains(out.Msg, "is not a keyword parameter of"):
+			gout, shown = "OErr KBadKey", "!unknown-key"
+		case out.Err == "type-error" && strings.HasPrefix(out.Msg, "keyword to function"):
+			gout, shown = "OErr KBadKey", "!type-error"
+		default:
+			gout, shown = "OErr KFault", "!"+out.Err+": "+out.Msg
+		}
+		term := fmt.Sprintf("(%s, %s, %s, %s, %s)", common.GList(gds), common.GList(gargs), gout, common.GList(gtraced), common.GList(gtrace))
+		if len(gtraced) > 0 {
+			ctx.Hist(fmt.Sprintf("traced-defaults:%d-evaluated:%d", len(gtraced), len(gtrace)))
+		}
+		ctx.Meta.Evaluations++
+		ctx.Hist("outcome:" + strings.SplitN(gout, " ", 3)[0] + strings.TrimPrefix(strings.SplitN(gout+" ", " ", 3)[1], "["))
+		if !distinct[term] {
+			distinct[term] = true
+			terms = append(terms, term)
+			d := map[string]any{"defun": def, "call": call, "result": shown, "default_forms_evaluated": gtrace}
+			descs = append(descs, d)
+			if len(terms)%211 == 1 {
+				ctx.Sample(d)
+			}
+		}
+		return call, out
+	}
 	for li := 0; li < nlists; li++ {
 		// shape: 0-3 required x 0-2 optional x rest x 0-3 keys x 0-1 aux
 		var ds []docArg
@@ -65,6 +142,10 @@ func Run(ctx *common.Ctx) {
 				x := 50 + ctx.Rng.Intn(40)
 				d.def = &x
 				d.form = fmt.Sprint(x)
+				d.traced = ctx.Rng.Chance(70)
+				if d.traced {
+					ctx.Hist("default:reports-its-evaluation")
+				}
 				// a third of the defaults are forms that must be evaluated (C04-1), some referring to a global
 				switch ctx.Rng.Intn(6) {
 				case 0:
@@ -150,7 +231,7 @@ func Run(ctx *common.Ctx) {
 					ll = append(ll, d.marker)
 				}
 			case d.def != nil:
-				ll = append(ll, fmt.Sprintf("(%s %s)", pnames[d.id], d.form))
+				ll = append(ll, fmt.Sprintf("(%s %s)", pnames[d.id], d.lispDefault()))
 				body = append(body, fmt.Sprintf("(if (boundp '%s) %s :unbound)", pnames[d.id], pnames[d.id]))
 			default:
 				ll = append(ll, pnames[d.id])
@@ -295,8 +376,7 @@ func Run(ctx *common.Ctx) {
 				continue
 			}
 			gds := gdsFor(posInts)
-			call := fmt.Sprintf("(%s %s)", name, strings.Join(args, " "))
-			out := common.EvalTimeout(scope, call, 3*time.Second)
+			call, out := emit(name, def, ds, gds, args, gargs)
 			if redef && k < 4 {
 				// history: (defun f <other list>) (defun caller () (f args)) (defun f <this list>) (caller)
 				other := common.Pick(ctx.Rng, []string{"(qa)", "(qa qb)", "(qa qb qc)", "()", "(&optional qa qb)", "(&rest qr)", "(qa &key qk)"})
@@ -313,55 +393,105 @@ func Run(ctx *common.Ctx) {
 						prog, common.ShowOutcome(o2), "the outcome of "+call+": "+common.ShowOutcome(out))
 				}
 			}
-			var gout, shown string
-			switch {
-			case out.Err == "":
-				lst, _ := out.Value.(slip.List)
-				var bs []string
-				bi := 0
-				for _, d := range ds {
-					if d.marker != "" {
-						continue
-					}
-					var val slip.Object
-					if bi < len(lst) {
-						val = lst[bi]
-					}
-					bi++
-					bs = append(bs, fmt.Sprintf("(%d%%N, %s)", d.id, gValue(val)))
-				}
-				gout, shown = "OBound "+common.GList(bs), out.Printed
-			case strings.HasPrefix(out.Msg, "Too many arguments"):
-				gout, shown = "OErr KTooMany", "!too-many"
-			case strings.HasPrefix(out.Msg, "Too few arguments"):
-				gout, shown = "OErr KTooFew", "!too-few"
-			case out.Err == "error" && strings.HasPrefix(out.Msg, "Missing value for key"):
-				gout, shown = "OErr KBadKey", "!missing-key-value"
-			case out.Err == "program-error" && strings.Contains(out.Msg, "is not a keyword parameter of"):
-				gout, shown = "OErr KBadKey", "!unknown-key"
-			case out.Err == "type-error" && strings.HasPrefix(out.Msg, "keyword to function"):
-				gout, shown = "OErr KBadKey", "!type-error"
-			default:
-				gout, shown = "OErr KFault", "!"+out.Err+": "+out.Msg
+		}
+	}
+	// ---- systematic block (round 3): which default forms are evaluated ----
+	// Five lambda lists whose every default form reports its evaluation; for each ALL argument vectors made of
+	// 0 .. positional parameters + 1 integers followed by ALL sequences of 0, 1 or 2 keyword/value pairs over a
+	// two-keyword alphabet (the declared keys; for the &allow-other-keys list one declared and one unknown key).
+	type eparam struct {
+		marker string
+		def    int // 0: no default form
+	}
+	for ei, el := range [][]eparam{
+		{{marker: "&optional"}, {def: 11}, {def: 12}},
+		{{}, {marker: "&optional"}, {def: 11}, {marker: "&key"}, {def: 21}, {def: 22}},
+		{{marker: "&key"}, {def: 21}, {def: 22}, {marker: "&aux"}, {def: 31}},
+		{{}, {marker: "&optional"}, {def: 11}, {def: 12}, {marker: "&rest"}, {}, {marker: "&aux"}, {def: 31}},
+		{{}, {marker: "&optional"}, {def: 11}, {marker: "&key"}, {def: 21}, {marker: "&allow-other-keys"}},
+	} {
+		var ds []docArg
+		var ll, body, gds []string
+		var keys []int
+		npos, id, inKey, hasKey, hasRest := 0, 0, false, false, false
+		positional := true
+		for _, ep := range el {
+			if ep.marker != "" {
+				ds = append(ds, docArg{marker: ep.marker})
+				ll = append(ll, ep.marker)
+				gds = append(gds, fmt.Sprintf("{| d_name := %s; d_def := None |}", map[string]string{"&optional": "POptional", "&rest": "PRest", "&key": "PKey", "&aux": "PAux", "&allow-other-keys": "PAllow"}[ep.marker]))
+				positional = positional && ep.marker == "&optional"
+				inKey = ep.marker == "&key"
+				hasKey = hasKey || inKey
+				hasRest = hasRest || ep.marker == "&rest"
+				continue
 			}
-			term := fmt.Sprintf("(%s, %s, %s)", common.GList(gds), common.GList(gargs), gout)
-			ctx.Meta.Evaluations++
-			ctx.Hist("outcome:" + strings.SplitN(gout, " ", 3)[0] + strings.TrimPrefix(strings.SplitN(gout+" ", " ", 3)[1], "["))
-			if !distinct[term] {
-				distinct[term] = true
-				terms = append(terms, term)
-				d := map[string]any{"defun": def, "call": call, "result": shown}
-				descs = append(descs, d)
-				if len(terms)%211 == 1 {
-					ctx.Sample(d)
+			d := docArg{id: id, ref: -1}
+			id++
+			if positional {
+				npos++
+			}
+			if inKey {
+				keys = append(keys, d.id)
+			}
+			body = append(body, fmt.Sprintf("(if (boundp '%s) %s :unbound)", pnames[d.id], pnames[d.id]))
+			if ep.def != 0 {
+				x := ep.def
+				d.def, d.form, d.traced = &x, fmt.Sprint(x), true
+				ll = append(ll, fmt.Sprintf("(%s %s)", pnames[d.id], d.lispDefault()))
+				gds = append(gds, fmt.Sprintf("{| d_name := PVar %d; d_def := Some (%d)%%Z |}", d.id, x))
+			} else {
+				ll = append(ll, pnames[d.id])
+				gds = append(gds, fmt.Sprintf("{| d_name := PVar %d; d_def := None |}", d.id))
+			}
+			ds = append(ds, d)
+		}
+		name := fmt.Sprintf("vfe%d", ei)
+		def := fmt.Sprintf("(defun %s (%s) (list %s))", name, strings.Join(ll, " "), strings.Join(body, " "))
+		if o := common.EvalIn(scope, def); o.Err != "" {
+			ctx.Violate("defun with a well-formed lambda list failed", def, o.Err+": "+o.Msg, nil)
+			continue
+		}
+		alphabet := keys
+		if len(keys) == 1 {
+			alphabet = []int{keys[0], id + 1} // a declared and an unknown key
+		}
+		var keySeqs [][]int
+		if hasKey {
+			keySeqs = append(keySeqs, nil)
+			for _, a := range alphabet {
+				keySeqs = append(keySeqs, []int{a})
+				for _, b := range alphabet {
+					keySeqs = append(keySeqs, []int{a, b})
 				}
+			}
+		} else {
+			keySeqs = [][]int{nil}
+		}
+		maxPos := npos + 1
+		if hasRest {
+			maxPos = npos + 2
+		}
+		for p := 0; p <= maxPos; p++ {
+			for _, ks := range keySeqs {
+				var args, gargs []string
+				for i := 0; i < p; i++ {
+					args = append(args, fmt.Sprint(i+1))
+					gargs = append(gargs, fmt.Sprintf("AInt %d", i+1))
+				}
+				for i, k := range ks {
+					args = append(args, kwName(k), fmt.Sprint(100+i))
+					gargs = append(gargs, fmt.Sprintf("AKw %d", k), fmt.Sprintf("AInt %d", 100+i))
+				}
+				emit(name, def, ds, gds, args, gargs)
+				ctx.Hist("enumerated:default-forms-block")
 			}
 		}
 	}
 	ctx.Meta.DistinctNontrivial = len(distinct)
-	ctx.Meta.Rule = "lambda lists: 0-3 required x 0-2 &optional (60% with a default: half a literal, the others a form to evaluate such as (+ 70 4), (+ zqglobal 4) or (+ zqa 2) with zqa a required parameter - the model then gets the literal that form evaluates to in the call at hand) x &rest (35%, a third of them spelled &body) x &key with 0-3 keys (50%, a quarter of them with &allow-other-keys) x &aux (25%); the parameter names zqc and zqf are also global variables; per list 14 (thorough 30) argument vectors: required + 0..optional+1 positional integers (10% fewer than required; with &rest half of them 0-3 more; 6% a keyword naming a key parameter instead; 25% a keyword naming the &aux parameter when the list has &rest and &aux but no &key) followed by 0-3 keyword/value pairs (76% a declared key, 8% :allow-other-keys with a true or nil value, 6% the name of some other parameter, 10% an unknown key; 7% missing value, duplicates possible); calls of a lambda list with &allow-other-keys, and a fifth of the others with &key (half when the key section is empty) after a leading :allow-other-keys 1, are permissive: at least one pair, 45% declared, 7% :allow-other-keys, 28% the name of another parameter, 20% unknown; 6% of the other calls start with :allow-other-keys nil :allow-other-keys 1 (the first counts: not permissive) and go on like a permissive one; the body reports every parameter or :unbound; for 45% of the lambda lists the first four calls are repeated through a caller compiled while the function still had another lambda list (redefinition history); distinct = distinct (lambda list, argument vector) pairs"
+	ctx.Meta.Rule = "lambda lists: 0-3 required x 0-2 &optional (60% with a default: half a literal, the others a form to evaluate such as (+ 70 4), (+ zqglobal 4) or (+ zqa 2) with zqa a required parameter - the model then gets the literal that form evaluates to in the call at hand) x &rest (35%, a third of them spelled &body) x &key with 0-3 keys (50%, a quarter of them with &allow-other-keys) x &aux (25%); the parameter names zqc and zqf are also global variables; per list 14 (thorough 30) argument vectors: required + 0..optional+1 positional integers (10% fewer than required; with &rest half of them 0-3 more; 6% a keyword naming a key parameter instead; 25% a keyword naming the &aux parameter when the list has &rest and &aux but no &key) followed by 0-3 keyword/value pairs (76% a declared key, 8% :allow-other-keys with a true or nil value, 6% the name of some other parameter, 10% an unknown key; 7% missing value, duplicates possible); calls of a lambda list with &allow-other-keys, and a fifth of the others with &key (half when the key section is empty) after a leading :allow-other-keys 1, are permissive: at least one pair, 45% declared, 7% :allow-other-keys, 28% the name of another parameter, 20% unknown; 6% of the other calls start with :allow-other-keys nil :allow-other-keys 1 (the first counts: not permissive) and go on like a permissive one; the body reports every parameter or :unbound; for 45% of the lambda lists the first four calls are repeated through a caller compiled while the function still had another lambda list (redefinition history); every default form is wrapped with 70% probability so that it reports its own evaluation (it pushes the parameter's index on a global list that is read after the call); distinct = distinct (lambda list, argument vector) pairs. ENUMERATED on every run (about 90 cases): five fixed lambda lists whose every default form reports its evaluation - (&optional o1 o2), (r &optional o1 &key k1 k2), (&key k1 k2 &aux x), (r &optional o1 o2 &rest rr &aux x), (r &optional o1 &key k1 &allow-other-keys) - each with ALL argument vectors of 0 .. positional parameters + 1 (+2 with &rest) integers followed by ALL sequences of 0, 1 or 2 keyword/value pairs over a two-keyword alphabet (the two declared keys; one declared and one unknown key for the &allow-other-keys list)"
 	header := "From C04 Require Import Model Spec Corr.\nOpen Scope N_scope.\n"
-	footer := "Definition res := Eval vm_compute in check_all cases.\nPrint res.\nDefinition gcount := Eval vm_compute in guard_count cases.\nPrint gcount.\n"
+	footer := "Definition res := Eval vm_compute in check_all cases.\nPrint res.\nDefinition gcount := Eval vm_compute in guard_count cases.\nPrint gcount.\nDefinition supplied := Eval vm_compute in supplied_count cases.\nPrint supplied.\n"
 	ctx.WriteShards("cases", header, "case", footer, terms, descs, 16)
 	ctx.ReplayKnownLisp()
 	RunArity(ctx)
